@@ -16,6 +16,8 @@ Section val_ind'.
   Hypothesis Hsome : forall v, P v -> P (VSome v).
   Hypothesis Hnone : forall t, P (VNone t).
   Hypothesis Hlist : forall t l, Forall P l -> P (VList t l).
+  Hypothesis Hbool : forall b, P (VBool b).
+  Hypothesis Hmap : forall big vt m, Forall (fun kv => P (snd kv)) m -> P (VMap big vt m).
   Fixpoint val_ind' (v : val) : P v :=
     match v with
     | VNat z => Hnat z | VStr s => Hstr s | VAddr a => Haddr a
@@ -28,6 +30,12 @@ Section val_ind'.
                                  | [] => Forall_nil P
                                  | x :: r => Forall_cons x (val_ind' x) (go r)
                                  end) l)
+    | VBool b => Hbool b
+    | VMap big vt m => Hmap big vt m ((fix go (m : list (Z * val)) : Forall (fun kv => P (snd kv)) m :=
+                                          match m with
+                                          | [] => Forall_nil _
+                                          | kv :: r => Forall_cons kv (match kv as kv0 return P (snd kv0) with (_, x) => val_ind' x end) (go r)
+                                          end) m)
     end.
 End val_ind'.
 
@@ -75,6 +83,8 @@ Proof.
   - injection H as ->. apply IHa. reflexivity.
   - f_equal. apply IHa. assumption.
   - injection H as ->. apply IHa. reflexivity.
+  - apply andb_prop in H. destruct H as [H1 H2]. apply Bool.eqb_prop in H1. subst. f_equal. apply IHa. assumption.
+  - injection H as -> ->. apply andb_true_intro. split; [apply Bool.eqb_reflx | apply IHa; reflexivity].
 Qed.
 
 Lemma cval_eqb_eq a b : cval_eqb a b = true <-> a = b.
@@ -106,6 +116,15 @@ Proof. induction l as [|x r IH]; [reflexivity|]. cbn [mass stack_mass] in *. rew
 Lemma pos_list t l : tickets_pos (VList t l) = stack_pos l.
 Proof. induction l as [|x r IH]; [reflexivity|]. cbn [tickets_pos stack_pos forallb] in *. rewrite IH. reflexivity. Qed.
 
+Fixpoint map_mass (k : key) (m : list (Z * val)) : Z :=
+  match m with [] => 0 | kv :: r => mass k (snd kv) + map_mass k r end.
+
+Lemma mass_map k big vt m : mass k (VMap big vt m) = map_mass k m.
+Proof. induction m as [|[k0 x] r IH]; [reflexivity|]. cbn [mass map_mass snd] in *. rewrite IH. reflexivity. Qed.
+
+Lemma pos_map big vt m : tickets_pos (VMap big vt m) = forallb (fun kv => tickets_pos (snd kv)) m.
+Proof. induction m as [|[k0 x] r IH]; [reflexivity|]. cbn [tickets_pos forallb snd] in *. rewrite IH. reflexivity. Qed.
+
 (* ---- well-typed values: list elements have the declared type ---- *)
 Fixpoint cval_wf (c : cval) : bool :=
   match c with
@@ -123,6 +142,8 @@ Fixpoint wt (v : val) : bool :=
   | VSome x => wt x
   | VList t l => (fix go (l : list val) : bool :=
                     match l with [] => true | x :: r => ty_eqb t (type_of x) && wt x && go r end) l
+  | VMap _ vt m => (fix go (m : list (Z * val)) : bool :=
+                      match m with [] => true | (k, x) :: r => (0 <=? k) && ty_eqb vt (type_of x) && wt x && go r end) m
   | _ => true
   end.
 
@@ -130,6 +151,11 @@ Definition wt_stack (s : list val) : bool := forallb wt s.
 
 Lemma wt_list t l : wt (VList t l) = forallb (fun x => ty_eqb t (type_of x) && wt x) l.
 Proof. induction l as [|x r IH]; [reflexivity|]. cbn [wt forallb] in *. rewrite IH. reflexivity. Qed.
+
+Definition entry_ok (vt : ty) (kv : Z * val) : bool := (0 <=? fst kv) && ty_eqb vt (type_of (snd kv)) && wt (snd kv).
+
+Lemma wt_map big vt m : wt (VMap big vt m) = forallb (entry_ok vt) m.
+Proof. induction m as [|[k0 x] r IH]; [reflexivity|]. cbn [wt forallb] in *. rewrite IH. reflexivity. Qed.
 
 Lemma wt_list_forall t l : wt (VList t l) = true -> forallb wt l = true.
 Proof.
@@ -141,7 +167,7 @@ Qed.
 (* a duplicable, well-typed value contains no ticket *)
 Lemma duplicable_mass0 k v : wt v = true -> duplicable (type_of v) = true -> mass k v = 0.
 Proof.
-  induction v as [| | | | a b IHa IHb | x IH | | t l IH] using val_ind'; intros Hwt Hd; try reflexivity.
+  induction v as [| | | | a b IHa IHb | x IH | | t l IH | | big vt m IHm] using val_ind'; intros Hwt Hd; try reflexivity.
   - discriminate.
   - cbn [wt type_of duplicable mass] in *. apply andb_prop in Hwt, Hd. destruct Hwt, Hd.
     rewrite IHa, IHb by assumption. reflexivity.
@@ -152,12 +178,18 @@ Proof.
     apply andb_prop in Hwt. destruct Hwt as [Hx' Hr']. apply andb_prop in Hx'. destruct Hx' as [Ht Hw].
     apply ty_eqb_eq in Ht. rewrite Hx; [|assumption | rewrite <- Ht; assumption].
     rewrite IHr by assumption. reflexivity.
+  - rewrite mass_map. rewrite wt_map in Hwt. cbn [type_of duplicable] in Hd.
+    induction m as [|[k0 x] r IHr]; [reflexivity|].
+    cbn [forallb map_mass snd] in *. inversion IHm as [|? ? Hx Hr]; subst. cbn [snd] in Hx.
+    apply andb_prop in Hwt. destruct Hwt as [Hx' Hr']. unfold entry_ok in Hx'. cbn [fst snd] in Hx'.
+    apply andb_prop in Hx'. destruct Hx' as [Hx'' Hw]. apply andb_prop in Hx''. destruct Hx'' as [_ Ht].
+    apply ty_eqb_eq in Ht. rewrite Hx; [|assumption | rewrite <- Ht; assumption]. rewrite IHr by assumption. reflexivity.
 Qed.
 
 (* ---- non-negativity ---- *)
 Lemma mass_nonneg k v : tickets_pos v = true -> 0 <= mass k v.
 Proof.
-  induction v as [| | | t c a | a b IHa IHb | x IH | | t l IH] using val_ind'; intros Hp; try (cbn [mass]; lia).
+  induction v as [| | | t c a | a b IHa IHb | x IH | | t l IH | | big vt m IHm] using val_ind'; intros Hp; try (cbn [mass]; lia).
   - cbn [tickets_pos mass] in *. destruct (key_eqb k (t, c)); lia.
   - cbn [tickets_pos mass] in *. apply andb_prop in Hp. destruct Hp. specialize (IHa ltac:(assumption)).
     specialize (IHb ltac:(assumption)). lia.
@@ -167,6 +199,10 @@ Proof.
     cbn [stack_pos forallb stack_mass] in *. inversion IH as [|? ? Hx Hr]; subst.
     apply andb_prop in Hp. destruct Hp as [Hp1 Hp2].
     specialize (Hx Hp1). specialize (IHr Hr Hp2). lia.
+  - rewrite mass_map. rewrite pos_map in Hp.
+    induction m as [|[k0 x] r IHr]; [simpl; lia|].
+    cbn [forallb map_mass snd] in *. inversion IHm as [|? ? Hx Hr]; subst. cbn [snd] in Hx.
+    apply andb_prop in Hp. destruct Hp as [Hp1 Hp2]. specialize (Hx Hp1). specialize (IHr Hr Hp2). lia.
 Qed.
 
 Lemma stack_mass_nonneg k s : stack_pos s = true -> 0 <= stack_mass k s.
@@ -271,7 +307,7 @@ Ltac destruct_matches H :=
 Ltac norm :=
   unfold ok_stack, wt_stack, stack_pos, with_stk in *;
   cbn [stk minted self forallb wt cval_wf tickets_pos stack_mass mass ledger_sum type_of fst snd] in *;
-  rewrite ?mass_list, ?pos_list, ?wt_list in *;
+  rewrite ?mass_list, ?pos_list, ?wt_list, ?mass_map, ?pos_map, ?wt_map in *;
   cbn [stk minted self forallb wt cval_wf tickets_pos stack_mass mass ledger_sum type_of fst snd] in *.
 
 Lemma cval_ok c : cval_wf c = true -> wt (val_of_cval c) = true /\ tickets_pos (val_of_cval c) = true.
@@ -293,7 +329,7 @@ Qed.
 Lemma content_of_facts k v : forall c, content_of v = Some c ->
   mass k v = 0 /\ (wt v = true -> cval_wf c = true).
 Proof.
-  induction v as [z|x|a|t0 c0 a0|a b IHa IHb|x IH|t|t l IH] using val_ind'; intros c H; cbn [content_of] in H; try discriminate.
+  induction v as [z|x|a|t0 c0 a0|a b IHa IHb|x IH|t|t l IH|b0|big vt m IHm] using val_ind'; intros c H; cbn [content_of] in H; try discriminate.
   - injection H as <-. split; [reflexivity | intros W; exact W].
   - injection H as <-. split; [reflexivity | reflexivity].
   - destruct (content_of a) as [ca|] eqn:Ea; [|discriminate]. destruct (content_of b) as [cb|] eqn:Eb; [|discriminate].
@@ -396,6 +432,171 @@ Ltac mass_facts k :=
          | H : duplicable (type_of ?v) = true, Hw : wt ?v = true |- _ => pose proof (duplicable_mass0 k v Hw H); revert H
          end; intros.
 
+
+(* ---- finite maps ---- *)
+Definition optmass (k : key) (o : option val) : Z := match o with Some v => mass k v | None => 0 end.
+
+Lemma forallb_remove (f : Z * val -> bool) k m : forallb f m = true -> forallb f (map_remove k m) = true.
+Proof.
+  induction m as [|[k0 x] r IH]; intros H; [reflexivity|]. cbn [forallb map_remove] in *.
+  apply andb_prop in H. destruct H as [H1 H2]. destruct (k =? k0); [apply IH; exact H2|].
+  cbn [forallb]. rewrite H1, (IH H2). reflexivity.
+Qed.
+
+Lemma forallb_insert (f : Z * val -> bool) k v m : f (k, v) = true -> forallb f m = true -> forallb f (map_insert k v m) = true.
+Proof.
+  intros Hv. induction m as [|[k0 x] r IH]; intros H; cbn [map_insert forallb] in *.
+  - rewrite Hv. reflexivity.
+  - apply andb_prop in H. destruct H as [H1 H2]. destruct (k <? k0); cbn [forallb].
+    + rewrite Hv, H1, H2. reflexivity.
+    + rewrite H1, (IH H2). reflexivity.
+Qed.
+
+Lemma map_get_forallb (f : val -> bool) k m v :
+  forallb (fun kv => f (snd kv)) m = true -> map_get k m = Some v -> f v = true.
+Proof.
+  induction m as [|[k0 x] r IH]; intros H G; cbn [map_get forallb snd] in *; [discriminate|].
+  apply andb_prop in H. destruct H as [H1 H2]. destruct (k =? k0); [injection G as <-; exact H1 | apply IH; assumption].
+Qed.
+
+Lemma entry_ok_forallb vt m : forallb (entry_ok vt) m = true ->
+  forallb (fun kv => ty_eqb vt (type_of (snd kv))) m = true /\ forallb (fun kv => wt (snd kv)) m = true.
+Proof.
+  induction m as [|[k0 x] r IH]; intros H; [split; reflexivity|]. cbn [forallb] in *.
+  apply andb_prop in H. destruct H as [H1 H2]. unfold entry_ok in H1. cbn [fst snd] in *.
+  apply andb_prop in H1. destruct H1 as [H1 Hw]. apply andb_prop in H1. destruct H1 as [_ Ht].
+  destruct (IH H2) as [A B]. rewrite Ht, Hw, A, B. split; reflexivity.
+Qed.
+
+Lemma map_mass_insert k0 k v m : map_mass k0 (map_insert k v m) = mass k0 v + map_mass k0 m.
+Proof.
+  induction m as [|[k1 x] r IH]; cbn [map_insert map_mass snd]; [lia|].
+  destruct (k <? k1); cbn [map_mass snd]; [lia | rewrite IH; lia].
+Qed.
+
+Lemma map_mass_nonneg k0 m : forallb (fun kv => tickets_pos (snd kv)) m = true -> 0 <= map_mass k0 m.
+Proof.
+  induction m as [|[k1 x] r IH]; intros H; cbn [map_mass forallb snd] in *; [lia|].
+  apply andb_prop in H. destruct H as [H1 H2]. pose proof (mass_nonneg k0 x H1). specialize (IH H2). lia.
+Qed.
+
+Lemma optmass_nonneg k0 k m : forallb (fun kv => tickets_pos (snd kv)) m = true -> 0 <= optmass k0 (map_get k m).
+Proof.
+  intros H. destruct (map_get k m) as [v|] eqn:G; cbn [optmass]; [|lia].
+  apply mass_nonneg. apply (map_get_forallb tickets_pos k m v H G).
+Qed.
+
+Lemma map_mass_remove k0 k m : forallb (fun kv => tickets_pos (snd kv)) m = true ->
+  0 <= map_mass k0 (map_remove k m) /\ map_mass k0 (map_remove k m) + optmass k0 (map_get k m) <= map_mass k0 m.
+Proof.
+  induction m as [|[k1 x] r IH]; intros H; cbn [map_mass map_remove map_get forallb snd optmass] in *; [lia|].
+  apply andb_prop in H. destruct H as [H1 H2]. pose proof (mass_nonneg k0 x H1). destruct (IH H2) as [A B].
+  pose proof (map_mass_nonneg k0 r H2).
+  destruct (k =? k1); cbn [map_mass snd optmass].
+  - pose proof (optmass_nonneg k0 k r H2). lia.
+  - lia.
+Qed.
+
+(* what a well-formed stack  VNat k :: ... :: VMap big vt m :: s  gives *)
+Lemma opt_of_ok vt k m :
+  forallb (entry_ok vt) m = true -> forallb (fun kv => tickets_pos (snd kv)) m = true ->
+  wt (opt_of vt (map_get k m)) = true /\ tickets_pos (opt_of vt (map_get k m)) = true /\
+  forall k0, mass k0 (opt_of vt (map_get k m)) = optmass k0 (map_get k m).
+Proof.
+  intros Hw Hp. destruct (entry_ok_forallb vt m Hw) as [_ Hw'].
+  destruct (map_get k m) as [v|] eqn:G; cbn [opt_of wt tickets_pos mass optmass].
+  - rewrite (map_get_forallb wt k m v Hw' G), (map_get_forallb tickets_pos k m v Hp G). repeat split.
+  - repeat split.
+Qed.
+
+Lemma map_put_ok vt k v m : 0 <= k -> ty_eqb vt (type_of v) = true -> wt v = true -> tickets_pos v = true ->
+  forallb (entry_ok vt) m = true -> forallb (fun kv => tickets_pos (snd kv)) m = true ->
+  forallb (entry_ok vt) (map_put k v m) = true /\ forallb (fun kv => tickets_pos (snd kv)) (map_put k v m) = true.
+Proof.
+  intros Hk Ht Hw Hp Hm Hmp. unfold map_put. split.
+  - apply forallb_insert; [unfold entry_ok; cbn [fst snd]; rewrite Ht, Hw; destruct (0 <=? k) eqn:E; [reflexivity | lia] | apply forallb_remove; exact Hm].
+  - apply forallb_insert; [exact Hp | apply forallb_remove; exact Hmp].
+Qed.
+
+Ltac map_stack H :=
+  cbn [step stk] in H; destruct_matches H; try (injection H as <-);
+  unfold ok_stack, wt_stack, stack_pos, with_stk in *; cbn [stk minted self forallb] in *;
+  rewrite ?wt_map, ?pos_map in *; cbn [wt tickets_pos] in *; split_ands.
+
+Lemma EMPTY_MAP_preserves big vt : preserves (step (EMPTY_MAP big vt)).
+Proof.
+  intros [sf s m0] st' Hok H. cbn [step stk] in H. injection H as <-. split.
+  - unfold ok_stack, wt_stack, stack_pos, with_stk in *. cbn [stk forallb wt tickets_pos]. exact Hok.
+  - intros k. unfold with_stk. cbn [stk minted stack_mass mass]. lia.
+Qed.
+
+Lemma UPDATE_preserves : preserves (step UPDATE).
+Proof.
+  intros [sf s m0] st' Hok H. map_stack H.
+  - (* Some v *)
+    match goal with Ht : ty_eqb ?vt (type_of ?v) = true, Hm : forallb (entry_ok ?vt) ?m = true, Hp : forallb (fun kv => tickets_pos (snd kv)) ?m = true |- _ =>
+      destruct (map_put_ok vt z v m ltac:(lia) Ht ltac:(assumption) ltac:(assumption) Hm Hp) as [A B] end.
+    split; [rewrite A, B; solve_bool|].
+    intros k. cbn [stk minted stack_mass]. rewrite !mass_map. cbn [mass]. unfold map_put. rewrite map_mass_insert.
+    match goal with |- context [map_remove z ?m] => match goal with Hp : forallb (fun kv => tickets_pos (snd kv)) m = true |- _ =>
+      destruct (map_mass_remove k z m Hp) as [R1 R2]; pose proof (optmass_nonneg k z m Hp) end end.
+    nonneg_facts k. lia.
+  - (* None *)
+    match goal with Hm : forallb (entry_ok ?vt) ?m = true, Hp : forallb (fun kv => tickets_pos (snd kv)) ?m = true |- _ =>
+      pose proof (forallb_remove _ z m Hm) as A; pose proof (forallb_remove _ z m Hp) as B end.
+    split; [rewrite A, B; solve_bool|].
+    intros k. cbn [stk minted stack_mass]. rewrite !mass_map. cbn [mass].
+    match goal with |- context [map_remove z ?m] => match goal with Hp : forallb (fun kv => tickets_pos (snd kv)) m = true |- _ =>
+      destruct (map_mass_remove k z m Hp) as [R1 R2]; pose proof (optmass_nonneg k z m Hp) end end.
+    nonneg_facts k. lia.
+Qed.
+
+Lemma GET_AND_UPDATE_preserves : preserves (step GET_AND_UPDATE).
+Proof.
+  intros [sf s m0] st' Hok H. map_stack H.
+  - match goal with Ht : ty_eqb ?vt (type_of ?v) = true, Hm : forallb (entry_ok ?vt) ?m = true, Hp : forallb (fun kv => tickets_pos (snd kv)) ?m = true |- _ =>
+      destruct (map_put_ok vt z v m ltac:(lia) Ht ltac:(assumption) ltac:(assumption) Hm Hp) as [A B];
+      destruct (opt_of_ok vt z m Hm Hp) as (O1 & O2 & O3) end.
+    split; [rewrite ?A, ?B, ?O1, ?O2; solve_bool|].
+    intros k. cbn [stk minted stack_mass]. rewrite !mass_map. cbn [mass]. rewrite ?O3. unfold map_put. rewrite map_mass_insert.
+    match goal with |- context [map_remove z ?m] => match goal with Hp : forallb (fun kv => tickets_pos (snd kv)) m = true |- _ =>
+      destruct (map_mass_remove k z m Hp) as [R1 R2] end end.
+    nonneg_facts k. lia.
+  - match goal with Hm : forallb (entry_ok ?vt) ?m = true, Hp : forallb (fun kv => tickets_pos (snd kv)) ?m = true |- _ =>
+      pose proof (forallb_remove _ z m Hm) as A; pose proof (forallb_remove _ z m Hp) as B;
+      destruct (opt_of_ok vt z m Hm Hp) as (O1 & O2 & O3) end.
+    split; [rewrite ?A, ?B, ?O1, ?O2; solve_bool|].
+    intros k. cbn [stk minted stack_mass]. rewrite !mass_map. cbn [mass]. rewrite ?O3.
+    match goal with |- context [map_remove z ?m] => match goal with Hp : forallb (fun kv => tickets_pos (snd kv)) m = true |- _ =>
+      destruct (map_mass_remove k z m Hp) as [R1 R2] end end.
+    nonneg_facts k. lia.
+Qed.
+
+Lemma MEM_preserves : preserves (step MEM).
+Proof.
+  intros [sf s m0] st' Hok H. map_stack H.
+  split; [solve_bool|]. intros k. cbn [stk minted stack_mass]. rewrite !mass_map. cbn [mass].
+  match goal with Hp : forallb (fun kv => tickets_pos (snd kv)) ?m = true |- _ => pose proof (map_mass_nonneg k m Hp) end.
+  nonneg_facts k. lia.
+Qed.
+
+(* GET hands out a copy: allowed only for duplicable value types, whose values hold no ticket *)
+Lemma GET_preserves : preserves (step GET).
+Proof.
+  intros [sf s m0] st' Hok H. map_stack H.
+  match goal with Hm : forallb (entry_ok ?vt) ?m = true, Hp : forallb (fun kv => tickets_pos (snd kv)) ?m = true |- _ =>
+    destruct (opt_of_ok vt z m Hm Hp) as (O1 & O2 & O3); destruct (entry_ok_forallb vt m Hm) as [Ht Hw'];
+    pose proof (map_mass_nonneg (sf, CN 0) m Hp) end.
+  split; [rewrite O1, O2; solve_bool|].
+  intros k. cbn [stk minted stack_mass]. rewrite !mass_map. cbn [mass]. rewrite ?O3.
+  match goal with Hp : forallb (fun kv => tickets_pos (snd kv)) ?m = true |- _ => pose proof (map_mass_nonneg k m Hp) end.
+  assert (Hz : optmass k (map_get z m) = 0).
+  { destruct (map_get z m) as [vv|] eqn:G; cbn [optmass]; [|reflexivity].
+    apply duplicable_mass0; [apply (map_get_forallb wt z m vv Hw' G)|].
+    pose proof (map_get_forallb (fun x => ty_eqb vt (type_of x)) z m vv Ht G) as E. apply ty_eqb_eq in E. rewrite <- E. assumption. }
+  nonneg_facts k. lia.
+Qed.
+
 Lemma step_base_preserves i :
   (forall a b, i <> IF_NONE a b) -> (forall a b, i <> IF_CONS a b) -> (forall a, i <> ITER a) -> (forall a, i <> MAP a) -> preserves (step i).
 Proof.
@@ -403,6 +604,7 @@ Proof.
   destruct i; try (exfalso; eapply N1; reflexivity); try (exfalso; eapply N2; reflexivity); try (exfalso; eapply N3; reflexivity);
     try (exfalso; eapply N4; reflexivity).
   1-4: first [ exact TICKET_preserves | exact READ_TICKET_preserves | exact SPLIT_TICKET_preserves | exact JOIN_TICKETS_preserves ].
+  all: try first [ apply EMPTY_MAP_preserves | exact UPDATE_preserves | exact GET_AND_UPDATE_preserves | exact MEM_preserves | exact GET_preserves ].
   all: intros [sf stk0 m] st' Hok H; cbn [step stk] in H.
   all: destruct_matches H.
   all: try (injection H as <-).
@@ -525,6 +727,25 @@ Proof.
         destruct (iter_with_preserves step body IHb l0 st0 st' Hs Hw Hp H) as [Hok' Hle] end.
       split; [assumption|]. intros k. specialize (Hle k). unfold with_stk in Hle.
       cbn [stk minted] in *. cbn [stack_mass]. rewrite mass_list. lia.
+    - (* map (not big_map): iterate over the (key, value) pairs *)
+      destruct big; [discriminate|].
+      set (prs := map (fun kv => VPair (VNat (fst kv)) (snd kv)) m0) in *.
+      assert (Hparts : ok_stack s = true /\ forallb wt prs = true /\ forallb tickets_pos prs = true /\
+                       forall k, stack_mass k prs = map_mass k m0).
+      { unfold ok_stack, wt_stack, stack_pos in *. cbn [stk forallb] in Hok.
+        apply andb_prop in Hok. destruct Hok as [O1 O2]. apply andb_prop in O1, O2.
+        destruct O1 as [W1 W2], O2 as [P1 P2]. rewrite W2, P2. rewrite wt_map in W1. rewrite pos_map in P1.
+        split; [reflexivity|]. unfold prs. clear - W1 P1.
+        induction m0 as [|[k0 x] r IHr]; [repeat split|].
+        cbn [forallb map fst snd stack_mass map_mass mass wt tickets_pos] in *.
+        apply andb_prop in W1, P1. destruct W1 as [E1 W1], P1 as [Q1 P1]. unfold entry_ok in E1. cbn [fst snd] in E1.
+        apply andb_prop in E1. destruct E1 as [E1 E3]. apply andb_prop in E1. destruct E1 as [E1 E2].
+        destruct (IHr W1 P1) as (A & B & C). rewrite E1, E3, Q1, A, B. repeat split. intros k. rewrite C. lia. }
+      destruct Hparts as (Hs & Hw & Hp & Hm).
+      match type of H with iter_with _ _ ?l0 ?st0 = _ =>
+        destruct (iter_with_preserves step body IHb l0 st0 st' Hs Hw Hp H) as [Hok' Hle] end.
+      split; [assumption|]. intros k. specialize (Hle k). unfold with_stk in Hle.
+      cbn [stk minted] in *. cbn [stack_mass]. rewrite mass_map, <- Hm. lia.
   }
   - apply step_base_preserves; assumption.
   - intros [sf s m] st' Hok H. cbn [step stk] in H.
@@ -616,6 +837,7 @@ Proof.
     destruct s as [|x s]; [discriminate|]. destruct x; try discriminate.
     - apply (iter_with_keeps step body IHb Hno) in H. exact H.
     - apply (iter_with_keeps step body IHb Hno) in H. exact H.
+    - destruct big; [discriminate|]. apply (iter_with_keeps step body IHb Hno) in H. exact H.
   }
   - intros [sf s m] st' H.
     destruct i; try discriminate Hno; try (exfalso; eapply N1; reflexivity); try (exfalso; eapply N2; reflexivity); try (exfalso; eapply N3; reflexivity); try (exfalso; eapply N4; reflexivity);
@@ -677,7 +899,7 @@ Fixpoint tickets_of (v : val) : list (bytes * cval * Z) :=
 
 Lemma tickets_pos_spec v : tickets_pos v = true -> forall tk0 cv0 amt, In (tk0, cv0, amt) (tickets_of v) -> 0 < amt.
 Proof.
-  induction v as [| | | t0 c0 a0 | p q IHa IHb | x IH | | t0 l IH] using val_ind'; intros Hp tk0 cv0 amt Hin;
+  induction v as [| | | t0 c0 a0 | p q IHa IHb | x IH | | t0 l IH | | big vt m IHm] using val_ind'; intros Hp tk0 cv0 amt Hin;
     try (simpl in Hin; contradiction).
   - simpl in Hin. destruct Hin as [E|[]]. injection E as <- <- <-. simpl in Hp. lia.
   - cbn [tickets_pos tickets_of] in *. apply andb_prop in Hp. destruct Hp as [H1 H2].
@@ -740,7 +962,7 @@ Fixpoint has_ticket (v : val) : bool :=
 
 Lemma has_ticket_not_duplicable v : wt v = true -> has_ticket v = true -> duplicable (type_of v) = false.
 Proof.
-  induction v as [| | | | a b IHa IHb | x IH | | t l IH] using val_ind'; intros Hwt Hh; try discriminate Hh.
+  induction v as [| | | | a b IHa IHb | x IH | | t l IH | | big vt m IHm] using val_ind'; intros Hwt Hh; try discriminate Hh.
   - reflexivity.
   - cbn [wt has_ticket type_of duplicable] in *. apply andb_prop in Hwt. destruct Hwt as [W1 W2].
     apply orb_prop in Hh. destruct Hh as [Hh|Hh]; [rewrite (IHa W1 Hh) | rewrite (IHb W2 Hh), andb_false_r]; reflexivity.
@@ -784,4 +1006,41 @@ Proof.
   intros Hs. destruct (join_spec st t c a1 t c a2 s Hs eq_refl) as [H _]. specialize (H (conj eq_refl eq_refl)).
   eexists. split; [exact H|]. rewrite Hs. unfold with_stk. cbn [stk minted stack_mass mass].
   split; [|reflexivity]. destruct (key_eqb k (t, c)); lia.
+Qed.
+
+(* ---- maps / big_maps holding tickets: GET and DUP are refused (the statement defect #50 violated) ---- *)
+Fixpoint ty_has_ticket (t : ty) : bool :=
+  match t with
+  | TTicket _ => true
+  | TPair a b => ty_has_ticket a || ty_has_ticket b
+  | TOption a | TList a | TMap _ a => ty_has_ticket a
+  | _ => false
+  end.
+
+Lemma ty_has_ticket_not_duplicable t : ty_has_ticket t = true -> duplicable t = false.
+Proof.
+  induction t; cbn [ty_has_ticket duplicable]; intros H; try discriminate; try reflexivity; auto.
+  apply orb_prop in H. destruct H as [H|H]; [rewrite (IHt1 H) | rewrite (IHt2 H), andb_false_r]; reflexivity.
+Qed.
+
+Theorem map_of_tickets_get_dup_rejected st k big vt m s : ty_has_ticket vt = true ->
+  (stk st = VNat k :: VMap big vt m :: s -> step GET st = Reject) /\
+  (stk st = VMap big vt m :: s -> step DUP st = Reject) /\
+  (forall n, nth_error (stk st) n = Some (VMap big vt m) -> step (DUPN (S n)) st = Reject).
+Proof.
+  intros Ht. pose proof (ty_has_ticket_not_duplicable vt Ht) as Hd. repeat split.
+  - intros Hs. cbn [step]. rewrite Hs, Hd. reflexivity.
+  - intros Hs. cbn [step]. rewrite Hs. cbn [type_of duplicable]. rewrite Hd. reflexivity.
+  - intros n Hs. cbn [step]. rewrite Hs. cbn [type_of duplicable]. rewrite Hd. destruct (stk st); reflexivity.
+Qed.
+
+(* GET_AND_UPDATE is the way to take a ticket out: it moves the value, exactly *)
+Theorem get_and_update_moves st k t big vt m s :
+  stk st = VNat k :: VNone t :: VMap big vt m :: s ->
+  step GET_AND_UPDATE st = Ok (with_stk st (opt_of vt (map_get k m) :: VMap big vt (map_remove k m) :: s)) /\
+  map_get k (map_remove k m) = None.
+Proof.
+  intros Hs. split; [cbn [step]; rewrite Hs; reflexivity|].
+  clear. induction m as [|[k1 x] r IH]; [reflexivity|]. cbn [map_remove]. destruct (k =? k1) eqn:E; [exact IH|].
+  cbn [map_get]. rewrite E. exact IH.
 Qed.
